@@ -66,7 +66,9 @@ def hx(b):
 
 def rand_name(rng, maxlen=255):
     r = rng.random()
-    if r < 0.55:
+    if r < 0.06:
+        n = rng.choice(['.', '..', '...', '.h']) + ''.join(rng.choice(ASCII) for _ in range(rng.choice([1, 3, 6])))
+    elif r < 0.55:
         n = ''.join(rng.choice(ASCII) for _ in range(rng.choice([1, 1, 2, 3, 5, 8])))
     elif r < 0.7:
         n = ''.join(rng.choice(ASCII + PUNCT) for _ in range(rng.choice([2, 4, 9, 20])))
@@ -165,8 +167,12 @@ def gen_tree(rng, n, deep=False, big=False, xattrs=False, weird_links=False):
                 tgt = os.path.relpath(rng.choice(dirs) or b'.', parent or b'.')
             elif tk < 0.7:
                 tgt = b'/nonexistent/' + rand_name(rng).encode()
-            elif tk < 0.8:
-                tgt = (rand_name(rng, 200) + '/' + rand_name(rng, 200) + '/' + rand_name(rng, 200)).encode()
+            elif tk < 0.85:
+                # long targets: beyond ustar's 100, beyond 255, beyond one path component, near PATH_MAX
+                k = rng.choice([99, 100, 101, 255, 256, 257, 600, 1023, 1024, 4000])
+                raw = ('/'.join(rand_name(rng, 120) for _ in range(k // 20 + 1)) + 'x' * k).encode()[:k]
+                tgt = raw.decode('utf-8', 'ignore').rstrip('/').encode() or b'x'
+                tgt += b'x' * (k - len(tgt))
             else:
                 tgt = b'dangling-' + rand_name(rng, 40).encode()
             ops.append(f'l {hx(path)} {s} {ns} {hx(tgt)}')
@@ -263,24 +269,29 @@ class TreeEng(Engine):
 
     # -- the property on the implementation's own output --------------------
     def oracle(self, case, impl):
+        probs = [p for p in self.problems(case, impl)]
+        new = [p for p in probs if not p.split(': ', 1)[-1].startswith('KF-') and not p.startswith('KF-')]
+        return (new or probs or [None])[0]
+
+    def problems(self, case, impl):
         src = None
         for op, o in zip(case.ops, impl):
             w = op.split()
             if o.startswith('!'):
-                return 'implementation crashed: ' + o
+                yield 'implementation crashed: ' + o; return
             if w[0] == 'seal':
                 _, src = parse_snap(o)
                 if src is None:
-                    return 'source snapshot unparsable'
+                    yield 'source snapshot unparsable'; return
             elif w[0] == 'walk' and src is not None:
                 head, ents = o.split('|')[0], o.split('|')[1:]
                 names = [e.split(' ')[0] for e in ents]
                 if not head.startswith('W eof cwd=1'):
-                    return 'walk did not end with EOF in the starting directory: ' + head
+                    yield 'walk did not end with EOF in the starting directory: ' + head
                 if len(names) != len(set(names)):
-                    return 'walk visited an object twice'
+                    yield 'walk visited an object twice'
                 if sorted(names) != sorted(e['path'] for e in src):
-                    return 'walk did not visit exactly the objects of the tree'
+                    yield 'walk did not visit exactly the objects of the tree'
             elif w[0] in ('rt', 'cli') and src is not None:
                 if w[0] == 'rt':
                     fmt, flags, uid = w[1], w[2], int(w[3])
@@ -294,13 +305,13 @@ class TreeEng(Engine):
                 cpio = fmt in ('newc', 'odc') or (w[0] == 'cli' and w[1] == 'cpio')
                 d = self.check_restore(src, o, FORMATS.get(fmt, FORMATS['pax']), perm, tm, sparse, uid, cpio)
                 if d:
-                    return f'{op}: {d}'
+                    yield f'{op}: {d}'
             elif w[0] == 'list' and src is not None:
                 names = sorted(x for x in o.split('|')[1:])
                 want = sorted((('2e2f' + (e['path'] if e['path'] != '-' else '') + ('2f' if e['type'] == 'd' and e['path'] != '-' else ''))
                                for e in src))
                 if names != want:
-                    return 'bsdtar -t does not list exactly the objects archived'
+                    yield 'bsdtar -t does not list exactly the objects archived'
             elif w[0] == 'xcmp':
                 if not (o.startswith('X same') or o.startswith('X nosup')):
                     # recorded finding: the pax writer url-encodes the attribute name in SCHILY.xattr.* too, the
@@ -308,9 +319,9 @@ class TreeEng(Engine):
                     esc = [x for x in case.ops if x.startswith('x ') and
                            any(b < 33 or b > 126 or b in (37, 61) for b in bytes.fromhex(x.split()[2]))]
                     if esc and w[1] == 'pax':
-                        return 'KF-pax-xattr-name: extended attribute whose name needs escaping restored twice: ' + o
-                    return 'extended attributes not reproduced: ' + o
-        return None
+                        yield 'KF-pax-xattr-name: extended attribute whose name needs escaping restored twice: ' + o
+                    else:
+                        yield 'extended attributes not reproduced: ' + o
 
     def check_restore(self, src, line, F, perm, tm, sparse, uid, cpio=False):
         head, dst = parse_snap(line)
